@@ -26,7 +26,9 @@ G = {}
 
 def build_cli(scratch):
     t = time.time()
-    V.run(["cargo", "build", "--offline", "--target-dir", os.path.join(scratch.dir, "target-cli")], cwd=scratch.repo, timeout=1800)
+    # built with the trace hook (cfg mscript_verif): validation compares real executions with the instruction summary step by step
+    env = V.env_offline({"RUSTFLAGS": "--cfg mscript_verif -Awarnings"})
+    V.run(["cargo", "build", "--offline", "--target-dir", os.path.join(scratch.dir, "target-cli")], cwd=scratch.repo, env=env, timeout=1800)
     exe = os.path.join(scratch.dir, "target-cli", "debug", "mscript")
     if not os.path.exists(exe):
         raise V.Inconclusive("CLI binary not built")
@@ -85,12 +87,19 @@ def work(job):
         res["validated"] = 0
         if validate and "impl" in keep:
             for vals, p in path_models(keep["impl"], fam.NIN, validate):
-                st, lines, detail = D.predict_impl(funcs, mp, vals)
-                rc, out, err = D.run_real(exe, wdir, stem + "r", ref.render(prog, vals))
+                ptrace, rtrace = [], []
+                st, lines, detail = D.predict_impl(funcs, mp, vals, trace=ptrace)
+                rc, out, err = D.run_real(exe, wdir, stem + "r", ref.render(prog, vals), trace=rtrace)
                 res["validated"] += 1
-                if rc is None or (rc == 0) != (st == "ok") or out != lines:
+                res["trace_records"] = res.get("trace_records", 0) + len(rtrace)
+                tdiff = None
+                if rtrace and ptrace != rtrace:
+                    k = next((i for i, (x, y) in enumerate(zip(ptrace, rtrace)) if x != y), min(len(ptrace), len(rtrace)))
+                    tdiff = {"at_record": k, "predicted": ptrace[k] if k < len(ptrace) else None, "real": rtrace[k] if k < len(rtrace) else None,
+                             "legend": "(function, ip, frames, open scope markers, operand-stack size)"}
+                if rc is None or (rc == 0) != (st == "ok") or out != lines or tdiff is not None:
                     rst, rlines, _ = D.predict_ref(prog, vals)
-                    res["mismatch"].append({"inputs": vals, "predicted": [st, lines, detail], "real": [rc, out, err[-200:]], "semantics": [rst, rlines],
+                    res["mismatch"].append({"inputs": vals, "predicted": [st, lines, detail], "real": [rc, out, err[-200:]], "semantics": [rst, rlines], "trace_diff": tdiff,
                                             "real_differs_from_semantics": rc is None or (rc == 0) != (rst == "ok") or out != rlines})
         # replay of solver counterexamples: real run vs. the semantics
         for v in res.get("violations", []):
@@ -275,6 +284,7 @@ def report(a, prop, results, space, full_depth, t0):
         "paths_outside_bound (loop/step/call-depth bound reached; outside the claim)": nbound,
         "failing_paths_compared (assert, zero divisor, overflow: output must stop at the same statement)": sum(r.get("fail_paths", 0) for r in results),
         "traces_validated_against_impl": nval, "summary_mismatches": len(mism),
+        "trace_records_compared (real interpreter vs. instruction summary, per executed instruction: function, ip, frames, scope markers, operand-stack size)": sum(r.get("trace_records", 0) for r in results),
         "family": {"exhaustive_to_depth": full_depth, "space_listed": space, "selected": len(results)},
         "solver_time_s": round(sum(r.get("t", 0) for r in results), 1),
         "checker_cmd": "python3-vt checks/c01_main.py %s --tier %s  (z3 %s, QF_BV)" % (prop, a.tier, z3.get_version_string()),
